@@ -130,6 +130,35 @@ def rule_A(ck, units):
                 ck.ob('A.sort-on-entry', key, f.where(c), ok, det)
 
 
+def fresh_from_class_callers(u, f, i):
+    """is parameter i of member function f, at every call site inside its own class, bound to a local that was created there by make_shared
+    (or default-constructed and filled)?  Then the pointee is the class\'s own fresh object, not a matrix of the library user."""
+    sites = []
+    for g in u.funcs:
+        if g.cls != f.cls or g is f or g.body is None:
+            continue
+        for c in g.calls():
+            if c.get('fd') == f.id and len(c.get('a', [])) > i:
+                sites.append((g, c))
+    if not sites:
+        return False
+    for g, c in sites:
+        a = unwrap(c['a'][i])
+        if a is None or a['k'] != 'ref' or g.decl(a['d']).get('k') != 'local':
+            return False
+        inits = [v.get('init') for n in g.nodes.values() if n['k'] == 'decl' for v in n['v'] if v['d'] == a['d']]
+        ok = False
+        for ini in inits:
+            iu = unwrap(ini) if ini is not None else None
+            if iu is None:
+                ok = True      # std::shared_ptr<M> X; assigned a fresh matrix by the helper
+            elif iu['k'] == 'call' and (iu.get('f') or '').startswith('std::make_shared') and not [x for x in iu.get('a', []) if x is not None and x.get('k') != 'defarg']:
+                ok = True
+        if not ok:
+            return False
+    return True
+
+
 def rule_B(ck, units):
     ck.rule('B.caller-matrix-untouched', 'a function that receives std::shared_ptr<build_matrix> does not modify the matrix it points to while the pointer still refers to the caller\'s object', 10)
     for u in units.values():
@@ -142,6 +171,8 @@ def rule_B(ck, units):
                 pt = u.type(f.decl(d).get('ct'))
                 if not is_crs_shared_ptr(pt):
                     continue
+                if fresh_from_class_callers(u, f, i):
+                    continue      # a helper of the class that fills matrices its caller has just created: not a caller-owned input
                 root = ('param', i)
                 acc = [a for a in an.accesses(f) if a.root == root]
                 loc = locate(f)
@@ -243,8 +274,21 @@ def rule_C(ck, units):
         if k in seen:
             continue
         seen.add(k)
-        ok = f.q in BORROWERS
-        ck.ob('C.free-only-owned', 'own_data=false|%s' % f.q, f.where(n), ok, '' if ok else 'own_data is cleared in %s, which is not a known borrowing site' % f.q)
+        # the flag may be cleared exactly where the object borrows arrays: in the same function at least one of its ptr / col / val members
+        # is set from existing storage (not from `new`) - the object then does not own (all of) what it points to
+        an_ = Analyzer([f.unit])
+        obj = an_.root_of_expr(f, unwrap(n['x'])['b']) if unwrap(n['x']).get('b') is not None else ('this',)
+        borrowed = []
+        for m in f.nodes.values():
+            if m['k'] == 'bin' and m['op'] == '=' and unwrap(m['x'])['k'] == 'mem' and unwrap(m['x'])['n'] in ('ptr', 'col', 'val'):
+                tgt = an_.root_of_expr(f, unwrap(m['x'])['b']) if unwrap(m['x']).get('b') is not None else ('this',)
+                rhs = unwrap(m['y'])
+                if tgt == obj and rhs is not None and rhs['k'] not in ('new', 'lit'):
+                    borrowed.append(m)
+        ok = bool(borrowed) or f.q in BORROWERS
+        cls = '::'.join(f.q.split('::')[:-1]) if f.cls else f.q
+        ck.ob('C.free-only-owned', 'own_data=false|%s' % (f.cls or f.q), f.where(n), ok,
+              '' if ok else 'own_data is cleared in %s although the object does not take over existing arrays there (no ptr / col / val member is set from borrowed storage): its arrays are never freed' % f.q)
 
 
 def rule_D(ck, units):
